@@ -55,7 +55,10 @@ Proof. unfold to_i64, i64, two64z, two63z, GoInt.two64, GoInt.two63. reflexivity
 
 Lemma tie_start_of_slot (p : ctparams) (slot : N) :
   C03_ChainTime.start_of_slot p slot = chaintime_StartOfSlot (ct_genesis p) (ct_dur p) (Z.of_N slot).
-Proof. unfold C03_ChainTime.start_of_slot, chaintime_StartOfSlot. do 2 rewrite to_i64_is_i64. reflexivity. Qed.
+Proof.
+  unfold C03_ChainTime.start_of_slot, chaintime_StartOfSlot.
+  rewrite (to_i64_is_i64 (Z.of_N slot)). rewrite (to_i64_is_i64 (i64 (Z.of_N slot) * ct_dur p)). reflexivity.
+Qed.
 
 Lemma tie_first_slot_of_epoch (p : ctparams) (epoch : N) :
   Z.of_N (C03_ChainTime.first_slot_of_epoch p epoch) = chaintime_FirstSlotOfEpoch (Z.of_N (ct_spe p)) (Z.of_N epoch).
@@ -63,7 +66,12 @@ Proof. unfold C03_ChainTime.first_slot_of_epoch, chaintime_FirstSlotOfEpoch. app
 
 Lemma tie_start_of_epoch (p : ctparams) (epoch : N) :
   start_of_epoch p epoch = chaintime_StartOfEpoch (ct_genesis p) (ct_dur p) (Z.of_N (ct_spe p)) (Z.of_N epoch).
-Proof. unfold start_of_epoch, chaintime_StartOfEpoch. do 2 rewrite to_i64_is_i64. rewrite of_N_mul64. reflexivity. Qed.
+Proof.
+  unfold start_of_epoch, chaintime_StartOfEpoch.
+  rewrite (to_i64_is_i64 (Z.of_N (mul64 epoch (ct_spe p)))).
+  rewrite (to_i64_is_i64 (i64 (Z.of_N (mul64 epoch (ct_spe p))) * ct_dur p)).
+  rewrite of_N_mul64. reflexivity.
+Qed.
 
 Lemma tie_slot_to_epoch (p : ctparams) (slot : N) :
   Z.of_N (slot_to_epoch p slot) = chaintime_SlotToEpoch (Z.of_N (ct_spe p)) (Z.of_N slot).
